@@ -2102,7 +2102,11 @@ class unyt_array(np.ndarray):
                 out_arr = ret_class(out_arr, unit, bypass_validation=True)
         if out is not None:
             if mul != 1:
-                multiply(out, mul, out=out)
+                # on the bare buffer: as an operand of unyt's own multiply the
+                # out array would still carry its previous unit, and a unit
+                # that simplifies with a coefficient (m**2/cm) scales again
+                out_data = np.asarray(out)
+                np.multiply(out_data, mul, out=out_data)
                 if np.shares_memory(out_arr, out):
                     mul = 1
             if isinstance(out, unyt_array):
